@@ -34,18 +34,28 @@ Theorem C19_nil_endpoint : forall (r : router) (c : config) (q : request) (n : e
 Proof. exact nil_endpoint_both. Qed.
 Print Assumptions C19_nil_endpoint.
 
-(* an advertised code_challenge_method is enforced at the token endpoint: tokens are issued
-   exactly when the verifier relates to the challenge as that method prescribes *)
-Theorem C19_pkce_honoured : forall (r : router) (c : config) (m : string) (v : vrel),
-  string_in m (doc_pkce c) = true -> pkce_issued r c m v = rel_matches m v.
+(* an advertised code_challenge_method is enforced at the token endpoint for EVERY kind of client
+   (client_secret_basic / post / private_key_jwt / public) and every verifier situation, a missing
+   code_verifier included: tokens are issued exactly when the verifier relates to the challenge as
+   that method prescribes (and the client's own authentication method is enabled) *)
+Theorem C19_pkce_honoured : forall (r : router) (c : config) (k : client_kind) (m : string) (v : vrel),
+  string_in m (doc_pkce c) = true ->
+  pkce_issued r c k (Some m) v = rel_matches m v && client_ok c k.
 Proof. exact pkce_honoured. Qed.
 Print Assumptions C19_pkce_honoured.
 
+(* no downgrade: without a verifier, or with one that only matches in the plain way, no tokens *)
+Theorem C19_pkce_no_downgrade : forall (r : router) (c : config) (k : client_kind) (m : string) (v : vrel),
+  string_in m (doc_pkce c) = true -> (v = VAbsent \/ v = VPlain \/ v = VNone) ->
+  pkce_issued r c k (Some m) v = false.
+Proof. exact pkce_no_downgrade. Qed.
+Print Assumptions C19_pkce_no_downgrade.
+
 (* request_parameter_supported is true exactly when a correctly signed request object is honoured,
-   and false exactly when it is refused with request_not_supported *)
-Theorem C19_request_object_honoured : forall (r : router) (c : config),
-  (doc_reqparam c = true <-> reqobj_outcome r c = RoHonoured)
-  /\ (doc_reqparam c = false <-> reqobj_outcome r c = RoNotSupported).
+   and false exactly when it is refused with request_not_supported, for every kind of client *)
+Theorem C19_request_object_honoured : forall (r : router) (c : config) (k : client_kind),
+  (doc_reqparam c = true <-> reqobj_outcome r c k = RoHonoured)
+  /\ (doc_reqparam c = false <-> reqobj_outcome r c k = RoNotSupported).
 Proof. exact request_object_honoured. Qed.
 Print Assumptions C19_request_object_honoured.
 
